@@ -2,7 +2,9 @@
    Results of the model are `res`: Ok v | Err | Panic line; the public functions' None is Err.
    cfg = true: overflow checks compiled in (cargo dev profile); cfg = false: wrapping (release). *)
 From RU Require Import Base.Prelude Base.Utf8 Base.U32_c13 Gen.Tables Model.Punycode Spec.Rfc3492
-  Proofs.C13_Ascii Proofs.C13_Bounds Proofs.C13_Enc Proofs.C13_Dec Proofs.C13_Known Proofs.C13_Vli Proofs.C13_Rt Proofs.C13_Main.
+  Proofs.C13_Ascii Proofs.C13_Bounds Proofs.C13_Enc Proofs.C13_Dec Proofs.C13_Known Proofs.C13_Vli Proofs.C13_Rt Proofs.C13_Main
+  Proofs.C13_DecB Proofs.C13_RtB Proofs.C13_DecEnc Proofs.C13_Small
+  Proofs.C13_Mono Proofs.C13_Parse Proofs.C13_EncDecB Proofs.C13_EncDec.
 
 (* the regenerated Bootstring parameters are those of RFC 3492 section 5 *)
 Theorem C13_consts :
@@ -102,6 +104,43 @@ Check C13_dec_enc_partial : forall cfg s p, usv_list s -> encode cfg s = Ok p ->
   p = s_encode s /\ s_decode p = Some s /\ (decode cfg p = Ok s \/ decode cfg p = Err).
 Print Assumptions C13_dec_enc_partial.
 
+(* decode (encode s) = s, full statement: for every sequence of scalar values whose encoding is produced and
+   which is outside the class of finding F-C13-1, in both configurations (no length hypothesis: the decoder's
+   `base_len as u32` and `length + 1` cannot overflow on an encoder output, whose basic part is shorter than 2^32) *)
+Theorem C13_dec_enc : C13_dec_enc_statement.
+Proof. exact dec_enc_main. Qed.
+Check C13_dec_enc : forall cfg s p, usv_list s -> encode cfg s = Ok p -> ~ Known_C13 s -> decode cfg p = Ok s.
+Print Assumptions C13_dec_enc.
+
+(* no exclusion at all up to 3854 scalars - and in fact up to 3855 (the witness of F-C13-1 has 3857) *)
+Theorem C13_dec_enc_small : C13_dec_enc_small_statement.
+Proof. exact dec_enc_small. Qed.
+Check C13_dec_enc_small : forall cfg s p, usv_list s -> (length s <= 3854)%nat -> encode cfg s = Ok p -> decode cfg p = Ok s.
+Print Assumptions C13_dec_enc_small.
+
+Theorem C13_dec_enc_small_3855 : forall cfg s p, usv_list s -> (length s <= 3855)%nat -> encode cfg s = Ok p -> decode cfg p = Ok s.
+Proof. exact dec_enc_small_3855. Qed.
+Check C13_dec_enc_small_3855 : forall cfg s p, usv_list s -> (length s <= 3855)%nat -> encode cfg s = Ok p -> decode cfg p = Ok s.
+Print Assumptions C13_dec_enc_small_3855.
+
+(* the ingredients: the bias never exceeds 215 while deltas fit in 32 bits; a successful run of the RFC 3492
+   decoder with the 32-bit checks written out (b_dec_loop) is a successful run of the model's decoder *)
+Theorem C13_bias_bound : forall d np first, d <= U32_MAX -> s_adapt d np first <= 215.
+Proof. exact s_adapt_le. Qed.
+Check C13_bias_bound : forall d np first, d <= U32_MAX -> s_adapt d np first <= 215.
+Print Assumptions C13_bias_bound.
+
+Theorem C13_decoder_complete : forall cfg p base rest out',
+  s_split p = (base, rest) -> forallb (fun c => c <? 128) base = true -> len base <= U32_MAX ->
+  b_dec_loop digit_u8 rest false 0 1 s_base 0 s_initial_n s_initial_bias base = Some out' ->
+  decode cfg p = Ok out'.
+Proof. exact decode_complete. Qed.
+Check C13_decoder_complete : forall cfg p base rest out',
+  s_split p = (base, rest) -> forallb (fun c => c <? 128) base = true -> len base <= U32_MAX ->
+  b_dec_loop digit_u8 rest false 0 1 s_base 0 s_initial_n s_initial_bias base = Some out' ->
+  decode cfg p = Ok out'.
+Print Assumptions C13_decoder_complete.
+
 (* both directions of encode (decode p) are the unbounded algorithms *)
 Theorem C13_enc_dec_partial : forall cfg p s q, ~ Known_C13_2 p ->
   decode cfg p = Ok s -> encode cfg s = Ok q -> s_decode p = Some s /\ q = s_encode s /\ ascii q.
@@ -109,6 +148,52 @@ Proof. exact enc_dec_partial. Qed.
 Check C13_enc_dec_partial : forall cfg p s q, ~ Known_C13_2 p ->
   decode cfg p = Ok s -> encode cfg s = Ok q -> s_decode p = Some s /\ q = s_encode s /\ ascii q.
 Print Assumptions C13_enc_dec_partial.
+
+(* encode (decode p) = p up to the case of the digits, full statement: the u32 encoder does not overflow on
+   what the u32 decoder produced, and it writes the basic part of p, the delimiter, and the digits of p in lower case *)
+Theorem C13_enc_dec : C13_enc_dec_statement.
+Proof. exact enc_dec_main. Qed.
+Check C13_enc_dec : forall cfg p s, ~ Known_C13_2 p -> decode cfg p = Ok s -> has_non_ascii s = true ->
+  exists q, encode cfg s = Ok q /\ eq_upto_digit_case q p.
+Print Assumptions C13_enc_dec.
+
+(* the same without the hypothesis that s has a non-ASCII scalar (an all-ASCII s comes from p = s ++ "-" or p = "") *)
+Theorem C13_enc_dec_all : forall cfg p s, ~ Known_C13_2 p -> decode cfg p = Ok s ->
+  exists q, encode cfg s = Ok q /\ eq_upto_digit_case q p.
+Proof. exact enc_dec_all. Qed.
+Check C13_enc_dec_all : forall cfg p s, ~ Known_C13_2 p -> decode cfg p = Ok s ->
+  exists q, encode cfg s = Ok q /\ eq_upto_digit_case q p.
+Print Assumptions C13_enc_dec_all.
+
+(* uniqueness of the generalized variable-length integers: whatever digits the decoder accepts for one delta q are,
+   in lower case, the digits the encoder writes for q *)
+Theorem C13_vli_unique : forall R mid oldi w k i n bias out s, R <> [] ->
+  b_dec_loop digit_u8 R mid oldi w k i n bias out = Some s ->
+  exists q D R', R = D ++ R'
+    /\ (forall f, q < 2 ^ N.of_nat f -> map to_lower D = s_enc_vli (S f) q k bias)
+    /\ i + q * w <= U32_MAX
+    /\ b_dec_break (b_dec_loop digit_u8) R' oldi (i + q * w) n bias out = Some s.
+Proof. exact (vli_parse digit_u8 digit_u8_lower). Qed.
+Check C13_vli_unique : forall R mid oldi w k i n bias out s, R <> [] ->
+  b_dec_loop digit_u8 R mid oldi w k i n bias out = Some s ->
+  exists q D R', R = D ++ R'
+    /\ (forall f, q < 2 ^ N.of_nat f -> map to_lower D = s_enc_vli (S f) q k bias)
+    /\ i + q * w <= U32_MAX
+    /\ b_dec_break (b_dec_loop digit_u8) R' oldi (i + q * w) n bias out = Some s.
+Print Assumptions C13_vli_unique.
+
+(* the <n, i> monotonicity of the decoder: of the final string, what lies below the current n is already in the
+   output, and so is the prefix of length i of what lies at or below n *)
+Theorem C13_decoder_monotone : forall R mid oldi w k i n bias out s,
+  all_le n out -> b_dec_loop digit_u8 R mid oldi w k i n bias out = Some s ->
+  (forall c, c < n -> filter (le_m c) s = filter (le_m c) out)
+  /\ (forall A B, out = A ++ B -> len A <= i -> exists B', filter (le_m n) s = A ++ B').
+Proof. exact (b_mono digit_u8). Qed.
+Check C13_decoder_monotone : forall R mid oldi w k i n bias out s,
+  all_le n out -> b_dec_loop digit_u8 R mid oldi w k i n bias out = Some s ->
+  (forall c, c < n -> filter (le_m c) s = filter (le_m c) out)
+  /\ (forall A B, out = A ++ B -> len A <= i -> exists B', filter (le_m n) s = A ++ B').
+Print Assumptions C13_decoder_monotone.
 
 (* step (1) of the round trip: the unbounded decoder reads the variable-length integer the encoder writes
    for q under the same bias and arrives at i + q * w at the end of that delta *)
@@ -148,3 +233,33 @@ Example C13_premises_hold :
   /\ s_decode (s_encode [51; 24180; 66; 32068; 37329; 20843; 20808; 29983]) = Some [51; 24180; 66; 32068; 37329; 20843; 20808; 29983]
   /\ known_c13 (repeat 128 3855 ++ [1113679]) = false.
 Proof. vm_compute. repeat split; reflexivity. Qed.
+
+(* the hypotheses of C13_dec_enc are met by the RFC sample (L) and by the 3856-scalar neighbour of the witness
+   (beyond the range of C13_dec_enc_small_3855) *)
+Example C13_dec_enc_premises_hold :
+  (usv_list [51; 24180; 66; 32068; 37329; 20843; 20808; 29983] /\ ~ Known_C13 [51; 24180; 66; 32068; 37329; 20843; 20808; 29983])
+  /\ (usv_list (repeat 128 3855 ++ [1113679]) /\ ~ Known_C13 (repeat 128 3855 ++ [1113679])
+      /\ is_ok (encode true (repeat 128 3855 ++ [1113679])) = true /\ length (repeat 128 3855 ++ [1113679]) = 3856%nat).
+Proof.
+  split; [split|split; [|split; [|split]]].
+  - apply usv_list_forallb. vm_compute. reflexivity.
+  - unfold Known_C13. vm_compute. discriminate.
+  - apply usv_list_forallb. vm_compute. reflexivity.
+  - unfold Known_C13. vm_compute. discriminate.
+  - vm_compute. reflexivity.
+  - vm_compute. reflexivity.
+Qed.
+
+(* the hypotheses of C13_enc_dec are met by sample (L) written with upper-case digits; the theorem's q is then
+   the lower-case spelling *)
+Example C13_enc_dec_premises_hold :
+  ~ Known_C13_2 [51; 66; 45; 87; 87; 52; 67; 53; 69; 49; 56; 48; 69; 53; 55; 53; 65; 54; 53; 76; 83; 89; 50; 66]
+  /\ decode true [51; 66; 45; 87; 87; 52; 67; 53; 69; 49; 56; 48; 69; 53; 55; 53; 65; 54; 53; 76; 83; 89; 50; 66]
+     = Ok [51; 24180; 66; 32068; 37329; 20843; 20808; 29983]
+  /\ has_non_ascii [51; 24180; 66; 32068; 37329; 20843; 20808; 29983] = true
+  /\ lower_digits [51; 66; 45; 87; 87; 52; 67; 53; 69; 49; 56; 48; 69; 53; 55; 53; 65; 54; 53; 76; 83; 89; 50; 66]
+     = [51; 66; 45; 119; 119; 52; 99; 53; 101; 49; 56; 48; 101; 53; 55; 53; 97; 54; 53; 108; 115; 121; 50; 98].
+Proof.
+  split; [|vm_compute; repeat split; reflexivity].
+  unfold Known_C13_2. vm_compute. discriminate.
+Qed.
